@@ -5,7 +5,7 @@
    Stack depth and wall-clock time are runtime and are searched by the correspondence streams of vlib/checks/c01.py. *)
 From Coq Require Import List Bool NArith ZArith Arith.
 From SliceV Require Import Gen.PanicSites Driver.PanicInventory Syntax.Lexer Syntax.LexerProofs Doc.Comment Doc.CommentProofs
-  Syntax.Parser Syntax.ParserTotal Driver.Files Driver.FilesProofs Sema.Resolve Sema.ResolveProofs Base.Bytes Codec.Wire Codec.Reply Codec.ReplyProofs Prep.PrepCore Prep.PrepCoreProofs.
+  Syntax.Parser Syntax.ParserTotal Driver.Files Driver.FilesProofs Sema.Resolve Sema.ResolveProofs Base.Bytes Codec.Wire Codec.Reply Codec.ReplyProofs Prep.PrepCore Prep.PrepCoreProofs Driver.Emit Driver.SnippetSafe.
 Import ListNotations.
 Local Open Scope nat_scope.
 
@@ -35,3 +35,17 @@ Proof. exact (proj1 reply_total_prefix). Qed.
 (* the preprocessor's tree evaluation agrees with the line-by-line machine on every list of lines (so it ends with the input) *)
 Theorem C01_preprocessor_total : forall ls S0, run_impl ls S0 = run_spec ls S0.
 Proof. exact prep_refines. Qed.
+(* showing a snippet: none of the subtractions of get_snippet / get_highlight (start.row - 1, start.col - 1, end.col - 1,
+   highlight_end - highlight_start on every line shown, start <= end) goes below zero for a span that runs from a position
+   of the text to a later one, unless it starts between a carriage return and its line feed ... *)
+Theorem C01_snippet_arithmetic_safe_between_positions : forall f p1 p2 rest, good_at p1 (p2 ++ rest) = true ->
+  snippet_safe (p1 ++ p2 ++ rest) (span_of f (pos p1) (pos (p1 ++ p2))).
+Proof. exact snippet_safe_between. Qed.
+(* ... and no token starts there: every token and lexical error of every block of every text (CRLF or not), and every
+   stretch from the start of one token to the end of a later one (what the parser and the validators point at), is safe *)
+Theorem C01_snippets_of_lexed_spans_never_underflow : forall (f : list N) (pre body post : list N) (fuel : nat) (attr : bool) (ts : list ptok) (er : option plexerr) (a : bool),
+  lex_block fuel attr (pos pre) body = (ts, er, a) ->
+  (forall s t e, In (s, t, e) ts -> snippet_safe (pre ++ body ++ post) (span_of f s e)) /\
+  (forall (ts1 : list ptok) (s1 : loc) (t1 : Tokens.token) (e1 : loc) (ts2 : list ptok) (s2 : loc) (t2 : Tokens.token) (e2 : loc) (ts3 : list ptok), ts = ts1 ++ (s1, t1, e1) :: ts2 ++ (s2, t2, e2) :: ts3 -> snippet_safe (pre ++ body ++ post) (span_of f s1 e2)) /\
+  (forall s x e, er = Some (s, x, e) -> snippet_safe (pre ++ body ++ post) (span_of f s e)).
+Proof. exact lexed_spans_render_safely. Qed.
